@@ -191,6 +191,81 @@ theorem loadedChip_spec (s : Chip) (buf b app : Nat) (entries : List Entry) (hb 
   · intro j _ hj
     exact loaded_rows_out s buf _ app entries j hj
 
+/-! ### reading back a loaded chip -/
+
+theorem loadedChip_svRtrCopy (s : Chip) (buf b app : Nat) (entries : List Entry)
+    (hsv2 : SvWord s svRtrCopy s.copyBase)
+    (hdis2 : buf + 16 * entries.length ≤ svBase + svRtrCopy ∨ svBase + svRtrCopy + 4 ≤ buf) :
+    SvWord (loadedChip s buf b app entries) svRtrCopy (loadedChip s buf b app entries).copyBase := by
+  refine ⟨hsv2.1, hsv2.2.1, ?_⟩
+  show List.map _ _ = le32 s.copyBase
+  rw [← hsv2.2.2]
+  apply List.map_congr_left
+  intro i hi
+  have hi' : i < 4 := by simpa using hi
+  simp only [loadedChip, Rig.C07.writeMem, recordsFrom_length]
+  rw [if_neg (by rcases hdis2 with h | h <;> omega)]
+
+theorem loadedChip_rows_ok (s : Chip) (buf b app : Nat) (entries : List Entry) (ha : app < 256)
+    (hr : ∀ e ∈ entries, e.InRange) (hrows : ∀ j, j < rtrEntries → (s.rows j).Ok) :
+    ∀ j, j < rtrEntries → ((loadedChip s buf b app entries).rows j).Ok := by
+  intro j hj
+  by_cases hjb : b ≤ j ∧ j < b + entries.length
+  · have e : j = b + (j - b) := by omega
+    rw [e, loaded_rows_in s buf _ app entries _ (by omega)]
+    have : (entries.getD (j - b) dfltEntry).InRange := by
+      apply hr
+      have hi : j - b < entries.length := by omega
+      simp [List.getD_eq_getElem?_getD, List.getElem?_eq_getElem hi]
+    simp only [Row.Ok, entOf]
+    exact ⟨routeWord_lt _ 24 this.1, this.2.1, this.2.2, ha, by omega⟩
+  · rw [loaded_rows_out s buf _ app entries j hjb]
+    exact hrows j hj
+
+/-- `get_routing_table_entries` on a machine: only reads, nothing changes -/
+theorem runM_getEntries (pol : ChipXY → Pol) (m : Machine) (scpLen : Nat) (c : ChipXY) (hb : 0 < scpLen)
+    (hsv : SvWord (m c) svRtrCopy (m c).copyBase) (hrows : ∀ j, j < rtrEntries → ((m c).rows j).Ok) :
+    runM pol (getEntries scpLen c.1 c.2) m =
+      (m, .ok ((List.range rtrEntries).map (fun j => decRow ((m c).rows j))),
+       (Rig.C07.read scpLen (svBase + svRtrCopy) 4).map (readReq c.1 c.2 0) ++
+         (Rig.C07.read scpLen (m c).copyBase (rtrEntries * 16)).map (readReq c.1 c.2 0)) := by
+  have hrun := get_run (pol c) (m c) scpLen c.1 c.2 hb hsv hrows
+  rw [runM_local pol c (getEntries scpLen c.1 c.2) m (by
+    rw [hrun]
+    intro r hr
+    simp only [List.mem_append, List.mem_map] at hr
+    rcases hr with ⟨ch, _, rfl⟩ | ⟨ch, _, rfl⟩ <;> rfl)]
+  rw [hrun, Machine.set_self]
+
+/-- what reading back a loaded chip gives inside the block -/
+theorem readback_loaded_in (s : Chip) (buf b app : Nat) (entries : List Entry) (i : Nat)
+    (hi : i < entries.length) (hbi : b + i < rtrEntries) (hr : ∀ e ∈ entries, e.InRange) :
+    ∃ e d, entries[i]? = some e ∧
+      ((List.range rtrEntries).map (fun j => decRow ((loadedChip s buf b app entries).rows j)))[b + i]? =
+        some (some d) ∧
+      d.key = e.key ∧ d.mask = e.mask ∧ d.app = app ∧ d.core = 0 ∧ (∀ r, r ∈ d.routes ↔ r ∈ e.route) := by
+  have hin : (entries.getD i dfltEntry).InRange := by
+    apply hr
+    simp [List.getD_eq_getElem?_getD, List.getElem?_eq_getElem hi]
+  refine ⟨entries.getD i dfltEntry,
+    { routes := routesValues.filter (fun b => (routeWord (entries.getD i dfltEntry).route >>> b) &&& 1 = 1),
+      key := (entries.getD i dfltEntry).key, mask := (entries.getD i dfltEntry).mask, app := app, core := 0 },
+    by simp [List.getD_eq_getElem?_getD, List.getElem?_eq_getElem hi], ?_, rfl, rfl, rfl, rfl, ?_⟩
+  · simp only [List.getElem?_map, List.getElem?_range hbi, Option.map_some]
+    rw [loaded_rows_in s buf _ app entries i hi]
+    simp only [decRow, entOf]
+    rfl
+  · intro r
+    rw [mem_routes_filter, routeWord_testBit]
+    exact ⟨fun h => h.2, fun h => ⟨hin.1 r h, h⟩⟩
+
+theorem readback_loaded_out (s : Chip) (buf b app : Nat) (entries : List Entry) (j : Nat)
+    (hj : j < rtrEntries) (hjb : ¬ (b ≤ j ∧ j < b + entries.length)) :
+    ((List.range rtrEntries).map (fun j => decRow ((loadedChip s buf b app entries).rows j)))[j]? =
+      some (decRow (s.rows j)) := by
+  simp only [List.getElem?_map, List.getElem?_range hj, Option.map_some]
+  rw [loaded_rows_out s buf _ app entries j hjb]
+
 /-! ### the loop over the chips -/
 
 theorem flatMap_congr' {α β : Type} {f g : α → List β} : ∀ (l : List α), (∀ a ∈ l, f a = g a) →
